@@ -98,3 +98,32 @@ Definition k_callable (v: kv) : bool :=
 (* bind `method` on the attrs holder under a fresh name and emit `holder.name(expression)` *)
 Definition k_call_expr (method expression: kv) : kv :=
   KTuple [KStr "call"; method; expression].
+
+(* ---- primitives for CodeBuilder.dataclass_fields ---- *)
+(* x[-1:0:-1] and x[1:] on tuples/lists (validated against CPython by the harness on every run) *)
+Definition k_slice_rev_tail (v: kv) : res kv :=
+  match v with KTuple l | KList l => Ok (KList (rev (tl l))) | _ => Raise TypeError end.
+Definition k_slice_tail (v: kv) : res kv :=
+  match v with KTuple l | KList l => Ok (KList (tl l)) | _ => Raise TypeError end.
+
+(* dataclasses.is_dataclass(cls) = hasattr(cls, "__dataclass_fields__") (attribute lookup through the MRO:
+   a class namespace in the model carries the attribute iff getattr finds it) *)
+Definition k_is_dataclass (c: kv) : bool :=
+  match c with KNs attrs => match ns_get attrs "__dataclass_fields__" with Some _ => true | None => false end | _ => false end.
+
+(* isinstance(x, dataclasses.Field): Field objects are namespaces with a `name` *)
+Definition k_is_field (v: kv) : bool :=
+  match v with KNs attrs => match ns_get attrs "name" with Some _ => true | None => false end | _ => false end.
+
+Definition k_dict_values (d: kv) : res kv :=
+  match d with KDict kvs => Ok (KList (map snd kvs)) | _ => Raise AttributeError end.
+
+Fixpoint d_remove (kvs: list (kv * kv)) (k: kv) : list (kv * kv) :=
+  match kvs with
+  | [] => []
+  | (k', x) :: r => if kv_eqb k' k then r else (k', x) :: d_remove r k
+  end.
+
+(* d.pop(k, None) used as a statement *)
+Definition k_dict_pop (d k: kv) : res kv :=
+  match d with KDict kvs => Ok (KDict (d_remove kvs k)) | _ => Raise AttributeError end.
